@@ -387,6 +387,16 @@ impl Scenario {
                 if !same { if dependent { self.tag("F2"); } self.viol("C03", format!("a permutation of the batch gives {:?} instead of {:?}", r.as_ref().map(|_| "accepted").map_err(|e| *e), base.as_ref().map(|_| "accepted").map_err(|e| *e))); break; }
             }
         }
+        // ... and every order on a pool of one thread, where a parallel fold sees the whole slice as one segment
+        if orders.len() <= 24 {
+            let pool1 = rayon::ThreadPoolBuilder::new().num_threads(1).build().unwrap();
+            for o in &orders {
+                if let Some(r) = pool1.install(|| run(o)) {
+                    let same = match (&base, &r) { (Ok(a), Ok(b)) => a == b, (Err(_), Err(_)) => true, _ => false };
+                    if !same { self.viol("C03", "a permutation of the batch run on a one-thread pool gives another result than the batch as presented".into()); break; }
+                }
+            }
+        }
         for threads in [1usize, 3] {
             let pool = rayon::ThreadPoolBuilder::new().num_threads(threads).build().unwrap();
             if let Some(r) = pool.install(|| run(txs)) {
@@ -2133,6 +2143,128 @@ pub fn directed(r: &mut Rng) -> Vec<Scenario> {
         }
         sc.block_end(None);
         sc.block_end(None);
+        out.push(sc);
+    }
+    // two mints of one batch that both beat the recorded speed: the fastest one sets it, in every order and on every pool
+    {
+        let mut sc = Scenario::new("d_doscmint_two_fast", r, NetID::Custom02, 100, 1 << 20);
+        sc.fixed_change = Some(sc.at());
+        let db = Database::new(InMemoryCas::default());
+        let cfg = GenesisConfig { network: NetID::Custom02, init_coindata: CoinData { covhash: sc.at(), value: CoinValue(1 << 50), denom: Denom::Mel, additional_data: Bytes::new() }, stakes: BTreeMap::new(), init_fee_pool: CoinValue(1 << 20), init_fee_multiplier: 100 };
+        sc.mode = Mode::U(cfg.realize(&db));
+        sc.db = db;
+        let d = sc.dump_now(); sc.init = sc.dump_str(&d);
+        let at = sc.at();
+        let g = sc.coin_of(Denom::Mel, 1 << 40).unwrap();
+        let split = sc.mk(r, TxKind::Normal, &[g], vec![sc.cd(at, 1 << 40, Denom::Mel), sc.cd(at, 1 << 40, Denom::Mel), sc.cd(at, 1 << 40, Denom::Mel)], vec![]);
+        sc.op_batch(&[split.clone()]);
+        sc.block_end(None);
+        let mut ms = vec![];
+        for (i, difficulty) in [(0u8, 21u32), (1, 20), (2, 20)] {
+            let c = (CoinID::new(split.hash_nosigs(), i), CoinDataHeight { coin_data: split.outputs[i as usize].clone(), height: BlockHeight(0) });
+            let hist = melstf::SmtMapping::<InMemoryCas, BlockHeight, Header>::new(sc.ustate().verif_history());
+            let seed = hist.get(&c.1.height).unwrap();
+            let puzzle = tmelcrypt::hash_keyed(seed.hash(), &stdcode::serialize(&c.0).unwrap());
+            let proof = melpow_proof(&puzzle, difficulty as usize);
+            let mut t = Transaction::new(TxKind::DoscMint);
+            t.outputs = vec![sc.cd(at, 1, Denom::Erg)];
+            t.data = Bytes::from(stdcode::serialize(&(difficulty, proof)).unwrap());
+            ms.push(sc.finish_tx(r, t, &[c], 0, 0));
+        }
+        let before = sc.ustate().verif_dosc_speed();
+        if sc.op_batch(&ms) == 0 {
+            let after = sc.ustate().verif_dosc_speed();
+            if after != (1u128 << 21) || before >= (1 << 20) { sc.viol("C18", format!("after mints of speed 2^21, 2^20, 2^20 on a recorded speed of {} the recorded speed is {}", before, after)); }
+        }
+        sc.block_end(None);
+        out.push(sc);
+    }
+    // the minimum fee is every transaction's own: one that pays a unit too little is not carried by a generous neighbour
+    {
+        let mut sc = base("d_fee_not_pooled", r, NetID::Custom02, 70000);
+        let at = sc.at();
+        sc.fixed_change = Some(at);
+        let f = sc.fund(r, &[(1 << 40, Denom::Mel), (1 << 40, Denom::Mel), (1 << 40, Denom::Mel), (1 << 40, Denom::Mel)]);
+        sc.op_batch(&[f.clone()]);
+        sc.block_end(None);
+        let fc = |i: u8| (CoinID::new(f.hash_nosigs(), i), CoinDataHeight { coin_data: f.outputs[i as usize].clone(), height: BlockHeight(0) });
+        let pay = |sc: &mut Scenario, r: &mut Rng, i: u8, adj: i128, tip: u128| { let mut t = Transaction::new(TxKind::Normal); t.outputs = vec![sc.cd(at, 1 << 30, Denom::Mel)]; t.data = Bytes::from(vec![i]); sc.finish_tx(r, t, &[fc(i)], adj, tip) };
+        // the wallet's fee estimate assumes a signature per input; these spends carry none, so the fee is set here
+        // relative to the transaction's real minimum (the change output absorbs the difference)
+        let mult = sc.ustate().verif_fee_multiplier();
+        let refee = |mut t: Transaction, delta: i128| -> Transaction {
+            for _ in 0..8 {
+                let min = t.base_fee(mult, 0, melvm::covenant_weight_from_bytes).0;
+                let want = (min as i128 + delta).max(0) as u128;
+                if want == t.fee.0 { break; }
+                let ci = t.outputs.len() - 1;
+                let total = t.outputs[ci].value.0 + t.fee.0;
+                t.fee = CoinValue(want);
+                t.outputs[ci].value = CoinValue(total - want);
+            }
+            t
+        };
+        let under = refee(pay(&mut sc, r, 0, 0, 0), -1);
+        let over = refee(pay(&mut sc, r, 1, 0, 0), 5000);
+        let exact = refee(pay(&mut sc, r, 2, 0, 0), 0);
+        if under.fee.0 + 1 != under.base_fee(mult, 0, melvm::covenant_weight_from_bytes).0 || exact.fee.0 != exact.base_fee(mult, 0, melvm::covenant_weight_from_bytes).0 { sc.bump("d_fee_not_pooled_setup_failed"); }
+        let ok_setup = under.fee.0 + 1 == under.base_fee(mult, 0, melvm::covenant_weight_from_bytes).0;
+        for b in [vec![under.clone(), over.clone()], vec![over.clone(), under.clone()], vec![exact.clone(), over.clone(), under.clone()]] {
+            if sc.op_batch(&b) == 0 && ok_setup { sc.viol("C05", "a batch holding a transaction that pays one unit less than its minimum fee was accepted because another member overpays".into()); break; }
+        }
+        sc.op_batch(&[over, exact]);
+        let a = Some(ProposerAction { fee_multiplier_delta: 0, reward_dest: at });
+        sc.block_end(a);
+        out.push(sc);
+    }
+    // groups of equal withdrawals from one pool in one block: the shares are rounded down, whatever the remainder of the
+    // pool's payout modulo the number of requests; and a built-in pool that its only depositor leaves keeps its reserves
+    {
+        let mut sc = base("d_withdrawal_shares_rounding", r, NetID::Custom02, 1000);
+        let at = sc.at();
+        sc.fixed_change = Some(at);
+        sc.block_end(None);
+        let mut want = vec![(1u128 << 44, Denom::Mel); 2];
+        want.extend(vec![(1u128 << 24, Denom::Mel); 20]);
+        want.push((3_000_000_007, Denom::Erg));
+        let f = sc.fund(r, &want);
+        sc.op_batch(&[f.clone()]);
+        sc.block_end(None);
+        let fc = |i: u8| (CoinID::new(f.hash_nosigs(), i), CoinDataHeight { coin_data: f.outputs[i as usize].clone(), height: BlockHeight(1) });
+        let key = PoolKey::new(Denom::Mel, Denom::Erg);
+        let liq = key.liq_token_denom();
+        let (l, rr) = if key.left() == Denom::Mel { (sc.cd(at, 2_999_999_999, Denom::Mel), sc.cd(at, 3_000_000_007, Denom::Erg)) } else { (sc.cd(at, 3_000_000_007, Denom::Erg), sc.cd(at, 2_999_999_999, Denom::Mel)) };
+        let dep = sc.mk(r, TxKind::LiqDeposit, &[fc(0), fc(22)], vec![l, rr], key.to_bytes().to_vec());
+        sc.op_batch(&[dep.clone()]);
+        sc.block_end(None);
+        // split the liquidity tokens into groups of three equal coins
+        let mine: Vec<(CoinID, CoinDataHeight)> = sc.wallet().coins.into_iter().filter(|(_, c)| c.coin_data.denom == liq).collect();
+        if let Some(lc) = mine.into_iter().max_by_key(|(_, c)| c.coin_data.value.0) {
+            let amounts = [1000u128, 1001, 777, 12345, 99_999, 1_000_003];
+            let mut outs = vec![];
+            for a in amounts { for _ in 0..3 { outs.push(sc.cd(at, a, liq)); } }
+            let used: u128 = amounts.iter().map(|a| a * 3).sum();
+            outs.push(sc.cd(at, lc.1.coin_data.value.0 - used, liq));
+            let sp = sc.mk(r, TxKind::Normal, &[fc(1), lc.clone()], outs, vec![]);
+            sc.op_batch(&[sp.clone()]);
+            sc.block_end(None);
+            let h = sc.ustate().verif_height().0 - 1;
+            let lcoin = |i: usize| (CoinID::new(sp.hash_nosigs(), i as u8), CoinDataHeight { coin_data: sp.outputs[i].clone(), height: BlockHeight(h) });
+            for g in 0..amounts.len() {
+                // a withdrawal request has exactly one output: the MEL that pays the fee is spent whole
+                let ws: Vec<Transaction> = (0..3).map(|j| { let i = g * 3 + j; let mut t = sc.mk(r, TxKind::LiqWithdraw, &[fc(2 + i as u8), lcoin(i)], vec![sc.cd(at, amounts[g], liq)], key.to_bytes().to_vec());
+                    if t.outputs.len() > 1 { let ch = t.outputs.pop().unwrap(); t.fee = CoinValue(t.fee.0 + ch.value.0); } t }).collect();
+                sc.op_batch(&ws);
+                sc.block_end(None);
+            }
+            // ... and the depositor leaves with everything that is left of his tokens
+            let rest = lcoin(amounts.len() * 3);
+            let mut w = sc.mk(r, TxKind::LiqWithdraw, &[fc(2 + 18), rest.clone()], vec![sc.cd(at, rest.1.coin_data.value.0, liq)], key.to_bytes().to_vec());
+            if w.outputs.len() > 1 { let ch = w.outputs.pop().unwrap(); w.fee = CoinValue(w.fee.0 + ch.value.0); }
+            sc.op_batch(&[w]);
+            sc.block_end(None);
+            sc.block_end(None);
+        }
         out.push(sc);
     }
     // a covenant that reads the last header (a time lock: last_header.height >= 2) is given the header of the
